@@ -87,6 +87,51 @@ def check_sibling_hash_conversion(prog, res):
                              "a signature produced by dstuSign need not verify" % (texts[0][max(0, i - 30):i + 30], texts[1][max(0, i - 30):i + 30]))
 
 
+CONVERSION = {"memCopy", "memMove", "memRev", "wwFrom", "u32From", "u64From", "zzMod", "wwIsZero", "memIsValid", "memIsDisjoint2",
+              "wwTrimHi", "memSetZero", "wwSetZero"}
+
+
+def check_hash_image_nonzero(prog, res):
+    """R16.7 (GOST R 34.10 / STB 1176.2 step `e = 0 => e <- 1`): in g12sSign and g12sVerify the image e of the hash is
+    known to be non-zero (tested non-zero, or set to 1, after its last reduction) at every call that consumes it.
+    Signer and verifier must map a hash divisible by q to the same e, and e = 0 discloses the private key."""
+    for fname in ("g12sSign", "g12sVerify"):
+        f = prog.funcs.get(fname)
+        if f is None or f.body is None:
+            raise AnalysisBroken("%s vanished" % fname)
+        sites = {}
+        canon = vp.Canon(f)
+        imgs = {canon(c["a"][0]) for c in ir.calls(f.body)
+                if c.get("callee") in ("memCopy", "memMove", "wwFrom") and len(c["a"]) >= 2 and canon(c["a"][1]) == "hash"}
+        if not imgs:
+            raise AnalysisBroken("%s: the copy of `hash` into the working buffer was not found" % fname)
+
+        def on_call(c, facts, node, cl):
+            cn = c.get("callee")
+            if not cn or cn in CONVERSION:
+                return
+            names = [cl.canon(a) for a in c["a"]]
+            for i, nm in enumerate(names):
+                if nm in imgs and i >= 1:
+                    sites.setdefault((c["l"], cn, nm), []).append(("nz", nm) in facts)
+
+        vp.run_facts(f, prog, on_call=on_call, track_generic=False)
+        if not sites:
+            raise AnalysisBroken("%s: no call consumes the image of `hash` any more" % fname)
+        # the first consumer in program order: later calls may see e after it was overwritten (e <- e^{-1})
+        first = sorted(sites)[0]
+        for (line, cn, nm), oks in [(first, sites[first])]:
+            if all(oks):
+                res.proved("R16.7-hash-image-nonzero", function=fname, file=f.relfile, line=line,
+                           construct="%s consumes e = H mod q" % cn, detail="e was tested non-zero or set to 1 after its reduction on all %d path state(s)" % len(oks))
+            else:
+                res.violation("R16.7-hash-image-nonzero", function=fname, file=f.relfile, line=line,
+                              construct="%s consumes e = H mod q that may be 0" % cn,
+                              detail="on %d of %d path state(s) the rule `e = 0 => e <- 1` has not been applied to the reduced "
+                                     "value (it was applied before the reduction, or not at all): for a hash divisible by q the "
+                                     "signer and the verifier disagree and s = r d discloses the key" % (oks.count(False), len(oks)))
+
+
 def run(tier, seed=0):
     res = Result("C16", "other", tier)
     prog = ir.Program("w64")
@@ -117,6 +162,7 @@ def run(tier, seed=0):
       [("coordinates reduced (qrFrom x2)", nfield(2)), ("on-curve test", ANY(FACT("oncurve", r"."), T("ec2IsOnA("))),
        ("order test", T("ecHasOrderA("))])
     check_sibling_hash_conversion(prog, res)
+    check_hash_image_nonzero(prog, res)
     res.floor("sampling sites", n1, 4)
     res.floor("private-key loads", n2, 3)
     res.floor("modular call sites", n3, 10)
